@@ -1,5 +1,11 @@
 (* C20 model driver.  Case line:  [spec] <macro> <c> <r> <silent> <name> <cond>
    macro = a name of the generated ladder, or prim:dprintf | prim:warning | prim:error | prim:fatal.
+   cond: bit 0 = value of the condition argument, bit 1 = second variant of the probe's use (the same
+   statement with a condition / argument strings that look like printf conversions: the macro's behaviour
+   may not depend on it).
+   txt: whether the logged text must contain the use's literal text (the stringified condition of
+   ASSERT/REQUIRE, the formatted message of the printing macros and primitives): "ok" whenever such a
+   use logs anything, "-" otherwise.
    Without "spec": the interpretation of the generated ladder (behaviour); with it: the specification
    of the macro's family.  gcc configuration: __FILE__/__LINE__ and __GNUC__ defined. *)
 let coq_name (s : string) =
@@ -8,27 +14,33 @@ let coq_name (s : string) =
      match of_N (n_of_int (Char.code s.[i])) with Some b -> b | None -> failwith "byte") : mname)
 let ml_name (l : mname) =
   String.concat "" (List.map (fun b -> String.make 1 (Char.chr (int_of_n (to_N b)))) l)
-let show_obs o =
+let logged o = o.o_dbg || o.o_warn || o.o_err || o.o_fatal
+let show_obs ?(has_text = false) o =
   let outs = (if o.o_dbg then "d" else "") ^ (if o.o_warn then "w" else "") ^ (if o.o_err then "e" else "")
              ^ (if o.o_fatal then "f" else "") in
-  Printf.sprintf "out=%s cond=%d args=%d val=%d mark=%d ctl=%s" (if outs = "" then "-" else outs)
+  Printf.sprintf "out=%s cond=%d args=%d val=%d mark=%d ctl=%s txt=%s" (if outs = "" then "-" else outs)
     (int_of_nat o.o_cond) (int_of_nat o.o_args) (int_of_nat o.o_val) (int_of_nat o.o_mark)
     (match o.o_ctl with Fall -> "fall" | Ret true -> "retv" | Ret false -> "ret" | Exit -> "exit" | Stuck -> "stuck")
+    (if has_text && logged o then "ok" else "-")
+(* the uses whose log lines carry a text of their own (harness/c20.c, checks/c20.py uses_header) *)
+let kind_has_text = function
+  | KAssert _ | KRequire _ | KDprintf _ | KDprintfPlain | KNever | KD _ -> true
+  | KHdr | KNotreached _ | KAbort | KDIf _ -> false
 let prim_of = function
   | "prim:dprintf" -> Some PDprintf | "prim:warning" -> Some PWarn | "prim:error" -> Some PError
   | "prim:fatal" -> Some PFatal | _ -> None
 let bool_of s = (s = "1")
+let cond_of s = (match s with "1" | "3" -> true | "0" | "2" -> false | _ -> failwith "bad-cond")
 let cell want_spec name c r si na co =
   let e = mk_env (z_of_int (int_of_string c)) true true in
-  let s = mk_rt (z_of_int (int_of_string r)) (bool_of si) (bool_of na) (bool_of co) in
+  let s = mk_rt (z_of_int (int_of_string r)) (bool_of si) (bool_of na) (cond_of co) in
   match prim_of name with
-  | Some p -> show_obs (if want_spec then spec_prim p s else prim_behaviour p s)
+  | Some p -> show_obs ~has_text:true (if want_spec then spec_prim p s else prim_behaviour p s)
   | None ->
-    if want_spec then begin
-      match List.find_opt (fun (n, _) -> ml_name n = name) classified with
-      | Some (_, k) -> show_obs (spec k e s)
-      | None -> "DRIVER-ERROR:unclassified-macro"
-    end else show_obs (behaviour (coq_name name) e s)
+    match List.find_opt (fun (n, _) -> ml_name n = name) classified with
+    | Some (_, k) ->
+      show_obs ~has_text:(kind_has_text k) (if want_spec then spec k e s else behaviour (coq_name name) e s)
+    | None -> if want_spec then "DRIVER-ERROR:unclassified-macro" else show_obs (behaviour (coq_name name) e s)
 let run = function
   | ["spec"; name; c; r; si; na; co] -> cell true name c r si na co
   | [name; c; r; si; na; co] -> cell false name c r si na co
